@@ -198,6 +198,21 @@ impl Session {
         self.stderr.lock().unwrap().iter().find(|l| l.contains("panicked")).cloned()
     }
 
+    pub fn pid(&self) -> u32 {
+        self.child.id()
+    }
+
+    /// Freeze the process (and, for wrapper commands that exec, the engine itself) for `ms` milliseconds
+    pub fn freeze(&self, ms: u64) {
+        unsafe {
+            libc::kill(self.child.id() as i32, libc::SIGSTOP);
+        }
+        std::thread::sleep(Duration::from_millis(ms));
+        unsafe {
+            libc::kill(self.child.id() as i32, libc::SIGCONT);
+        }
+    }
+
     pub fn alive(&mut self) -> bool {
         matches!(self.child.try_wait(), Ok(None))
     }
